@@ -614,6 +614,18 @@ func checkCreateEventV2(event PDU, sender spec.UserID, knownRoomVersion KnownRoo
 	if sender.Domain() != event.RoomID().Domain() {
 		return errorf("create event room ID domain does not match sender: %q != %q", event.RoomID().Domain(), sender.String())
 	}
+	// Room version 11 dropped the creator field, not the room_version check.
+	c := struct {
+		RoomVersion *RoomVersion `json:"room_version"`
+	}{}
+	if err := json.Unmarshal(event.Content(), &c); err != nil {
+		return errorf("create event has invalid content: %s", err.Error())
+	}
+	if c.RoomVersion != nil {
+		if !knownRoomVersion(*c.RoomVersion) {
+			return errorf("create event has unrecognised room version %q", *c.RoomVersion)
+		}
+	}
 	return nil
 }
 
